@@ -61,3 +61,12 @@ pub fn external_about(id: &str) -> Vec<(&'static str, &'static str, &'static str
         _ => vec![],
     }
 }
+
+/// thorough-tier only external sub-checks (coverage-guided campaigns)
+pub fn external_about_thorough(id: &str) -> Vec<(&'static str, &'static str, &'static str)> {
+    match id {
+        "C01" => vec![("fz_total_campaign", "libFuzzer (cargo-fuzz, nightly, ASan + debug assertions + overflow checks) on fz_total: bytes -> rule text, newline, data text -> serde_json::from_str x2 -> apply, 16 forked jobs for 120 s from the committed seeds (repository examples, regression inputs) with an operator / extreme-literal dictionary, -max_len=512; oracle inside the target (panic, invalid result text; inputs over the model's work budget skipped, -timeout=60 s).", "distinct coverage-increasing inputs kept in the corpus.")],
+        "C04" => vec![("fz_diff_campaign", "libFuzzer on fz_diff: bytes -> arbitrary::Unstructured -> (rule, data) over the operator tables and value corpus (operation-shaped data included) -> implementation vs the single-pass reference model, oracle inside the target; 16 forked jobs for 120 s.", "distinct coverage-increasing inputs kept in the corpus.")],
+        _ => vec![],
+    }
+}
